@@ -544,6 +544,8 @@ func c03Alphabet(s *sessSys) []sessReq {
 			if xue != "" && xteid != 0 && x.pdr(5) == nil && x.pdr(6) == nil && x.far(1) != nil && x.far(2) != nil {
 				np := sdfPDRs(5, xue, xteid, 40, "permit out udp from 10.9.0.0/16 53 to assigned", 1, 2, nil)
 				add("mod-create-then-remove-unknown", sessReq{sReq: sReq{Kind: kMod, Conn: c, CreatePDR: np, RemovePDR: []uint16{99}}, Sess: x.Idx})
+				// ... and the same with a Remove IE that names an existing rule in front of the unknown one
+				add("mod-create-then-remove-known-and-unknown", sessReq{sReq: sReq{Kind: kMod, Conn: c, CreatePDR: np, RemovePDR: []uint16{x.PDRs[0].ID, 99}}, Sess: x.Idx})
 			}
 			if q := x.qer(1); q != nil {
 				nq := *q
